@@ -186,7 +186,7 @@ def gen_container(cls, rng, tier):
             idx += 1
     # DOT exports with every attribute-callback combination on a fixed and on random graphs
     for gi in range(40 if tier == "thorough" else 8):
-        g = sc.random_graph(cls, rng, maxn=8, maxe=14)
+        g = sc.random_graph(cls, rng, maxn=8 if gi % 2 else 20, maxe=14 if gi % 2 else 45)
         steps = g.steps() + ["gnew"] + ["gins 0 %d" % u for u in range(g.n)]
         for ga in (0, 1, 2):
             for na in (0, 1, 2):
@@ -198,10 +198,13 @@ def gen_container(cls, rng, tier):
         steps.append("gdot 0")
         cases.append(Case("dot%s%d" % (cls, gi), cls, steps, dict(kind="dot", nodes=g.n)))
     # random long histories
-    for ci in range(2000 if tier == "thorough" else 100):
-        n = rng.randint(2, 8)
+    for ci in range(2000 if tier == "thorough" else 140):
+        n = rng.randint(2, 8) if ci % 3 else rng.randint(9, 28)
         ks = rng.sample(range(1, 60), n)
         steps = ["new %d %d" % (k, rng.randint(-3, 3)) for k in ks] + ["gnew", "gnew"]
+        if n > 8:
+            # large containers: most nodes are members of graph 0 from the start
+            steps += ["gins 0 %d" % u for u in rng.sample(range(n), n - rng.randint(0, 3))]
         for j in range(rng.randint(20, 80)):
             r = rng.random()
             g = rng.randrange(2)
